@@ -295,6 +295,7 @@ def explore_pyapi(case):
                 elems.append(p)
         targets = ["g_left_jacobian", "g_right_jacobian"]
         numapi.check_group(res, B, elems, [], case, "pyapi", targets)
+        numapi.check_forms(res, B, elems, [], case, "pyapi", targets)
         numapi.check_history(res, B, elems, [], case, "pyapi", targets, ["to_Matrix", "Ad", "inverse", "log", "product"] + targets)
         for p in elems:
             res.nontrivial.add(hash(p.tobytes()))
@@ -305,6 +306,7 @@ def explore_pyapi(case):
         xs = [x for x in xs if np.linalg.norm(gutil.slots_of(AL, x)[-1]) < 2 * math.pi - 0.05]
         targets = ["left_jacobian", "right_jacobian", "left_jacobian_inv", "right_jacobian_inv"]
         numapi.check_group(res, B, [], xs, case, "pyapi", targets, tol=1e-9)
+        numapi.check_forms(res, B, [], xs, case, "pyapi", targets, tol=1e-9)
         numapi.check_history(res, B, [], xs, case, "pyapi", targets, ["exp", "ad", "wedge"] + targets, tol=1e-9)
         for x in xs:
             if maxabs(x) > 0:
